@@ -41,6 +41,20 @@ def _empty():
     return {"V": [], "E": [], "F": [], "C": [], "attrs": {}}
 
 
+def _spell(c, style=0):
+    """a double written the way different exporters do, always exactly (17 significant digits identify a double):
+    0 shortest repr, 1 '%.17g', 2 '%+.16E' (explicit sign, upper-case exponent)"""
+    c = float(c)
+    return repr(c) if style == 0 else "%.17g" % c if style == 1 else "%+.16E" % c
+
+
+def _layout(lines, variant_is_layout):
+    """the 'layout' variants: tabs for blanks, indented records, trailing blanks, CR LF line ends"""
+    if not variant_is_layout:
+        return "\n".join(lines) + "\n"
+    return "".join(" " + l.replace(" ", "\t") + " \r\n" for l in lines)
+
+
 class _Tokens:
     def __init__(self, toks):
         self.t, self.k = toks, 0
@@ -106,12 +120,19 @@ def parse_obj(text):
 
 def write_obj(m, variant=0):
     """variant 0: 'f a b c'; 1: 'f a/t ..' ; 2: 'f a//n ..'; 3: 'f a/t/n ..'; 4: plain with the decorations
-    usual exporters add (comments, blank lines, o/g/s statements)."""
+    usual exporters add (comments, blank lines, o/g/s statements); 5: 'v x y z w' and 'v x y z r g b' records (optional
+    weight / vertex colour after the coordinates); 6: plain with mtllib/usemtl statements, 17-digit numbers with explicit
+    sign and upper-case exponent, tabs, indented records, CR LF line ends."""
     out = []
     if variant == 4:
         out += ["# reference OBJ writer", "", "o object_1"]
-    for p in m["V"]:
-        out.append("v " + " ".join(repr(float(c)) for c in p))
+    if variant == 6:
+        out += ["mtllib reference.mtl"]
+    for k, p in enumerate(m["V"]):
+        extra = ""
+        if variant == 5:
+            extra = " 1.0" if k % 2 == 0 else f" {repr((k % 5) / 4)} 0.5 1.0"
+        out.append("v " + " ".join(_spell(c, 2 if variant == 6 else 0) for c in p) + extra)
     ncorner = sum(len(f) for f in m["F"])
     if variant in (1, 3):
         for k in range(max(ncorner, 1)):
@@ -121,6 +142,8 @@ def write_obj(m, variant=0):
             out.append("vn 0.0 0.0 1.0")
     if variant == 4:
         out += ["g group_1", "s off"]
+    if variant == 6:
+        out += ["usemtl material_0"]
     for a, b in m["E"]:
         out.append(f"l {a + 1} {b + 1}")
     c = 0
@@ -137,7 +160,7 @@ def write_obj(m, variant=0):
             else:
                 parts.append(f"{v + 1}")
         out.append("f " + " ".join(parts))
-    return "\n".join(out) + "\n"
+    return _layout(out, variant == 6)
 
 
 # ================================================================================================ medit
@@ -195,14 +218,25 @@ def parse_medit(text):
 def write_medit(m, variant=0):
     """variant 0: 'MeshVersionFormatted 1 / Dimension 3', references 1, faces before cells;
     variant 1: the layout other tools write (version 2, ' Dimension' and its value on separate indented lines,
-    reference 0, cells before faces, quadrilaterals before triangles)."""
+    reference 0, cells before faces, quadrilaterals before triangles);
+    variant 2: layout 0 with the optional parts of the format a reader has to skip: comment lines, blank lines between
+    the blocks, Corners / Ridges / RequiredVertices blocks between the element blocks, region references other than 0/1;
+    variant 3: layout 0 with 17-digit numbers (explicit sign, upper-case exponent), tabs, indented records, CR LF."""
     out = []
-    ref = 1 if variant == 0 else 0
-    ind = "" if variant == 0 else " "
-    if variant == 0:
-        out += ["MeshVersionFormatted 1", "Dimension 3"]
-    else:
+    ref = 0 if variant == 1 else 1
+    ind = " " if variant == 1 else ""
+    refs = [0, 3, 17, 1, 2]
+    if variant == 1:
         out += [" MeshVersionFormatted 2", " Dimension", " 3"]
+    else:
+        out += ["MeshVersionFormatted 1", "Dimension 3"]
+    if variant == 2:
+        out += ["# written by the reference medit writer", ""]
+    nrec = [0]
+
+    def rf():
+        nrec[0] += 1
+        return refs[nrec[0] % 5] if variant == 2 else ref
 
     def block(name, rows, shift=1):
         if not rows:
@@ -210,62 +244,100 @@ def write_medit(m, variant=0):
         out.append(ind + name)
         out.append(ind + str(len(rows)))
         for r in rows:
-            out.append(ind + " ".join(str(v + shift) for v in r) + f" {ref}")
+            out.append(ind + " ".join(str(v + shift) for v in r) + f" {rf()}")
+        if variant == 2:
+            out.append("")
+
+    def other(name, ids):
+        if variant == 2 and ids:
+            out.extend([name, str(len(ids))] + [str(i + 1) for i in ids] + ["", "# end of " + name])
 
     out.append(ind + "Vertices")
     out.append(ind + str(len(m["V"])))
     for p in m["V"]:
-        out.append(ind + " ".join(repr(float(c)) for c in p) + f" {ref}")
+        out.append(ind + " ".join(_spell(c, 2 if variant == 3 else 0) for c in p) + f" {rf()}")
+    other("Corners", list(range(min(2, len(m["V"])))))
     tris = [f for f in m["F"] if len(f) == 3]
     quads = [f for f in m["F"] if len(f) == 4]
     tets = [c for c in m["C"] if len(c) == 4]
     hexs = [c for c in m["C"] if len(c) == 8]
-    if variant == 0:
-        block("Edges", m["E"]); block("Triangles", tris); block("Quadrilaterals", quads)
+    if variant != 1:
+        block("Edges", m["E"]); other("Ridges", list(range(min(1, len(m["E"])))))
+        block("Triangles", tris); block("Quadrilaterals", quads)
+        other("RequiredVertices", list(range(min(3, len(m["V"])))))
         block("Tetrahedra", tets); block("Hexahedra", hexs)
     else:
         block("Tetrahedra", tets); block("Hexahedra", hexs)
         block("Quadrilaterals", quads); block("Triangles", tris); block("Edges", m["E"])
     out.append(ind + "End")
-    return "\n".join(out) + "\n"
+    return _layout(out, variant == 3)
 
 
 # ================================================================================================ OFF
 def parse_off(text):
+    """Header and vertices are a free token stream; a face record is 'k i1..ik' followed, up to the end of ITS line, by
+    an optional colour (no token, one colormap index, or 3 / 4 integers or floats)."""
+    EOL = object()
     toks = []
     for raw in text.splitlines():
         toks += _strip_comment(raw).split()
+        toks.append(EOL)
     ts = _Tokens(toks)
-    head = ts.next("OFF header")
+
+    def nxt(what):
+        while True:
+            t = ts.next(what)
+            if t is not EOL:
+                return t
+
+    head = nxt("OFF header")
     if head != "OFF":
         raise RefParseError(f"header {head!r} (only the plain OFF flavour is handled)")
-    nv, nf, _ne = _i(ts.next()), _i(ts.next()), _i(ts.next())
+    nv, nf, _ne = _i(nxt("count")), _i(nxt("count")), _i(nxt("count"))
     m = _empty()
     for _ in range(nv):
-        m["V"].append([_f(ts.next("coordinate")) for _ in range(3)])
+        m["V"].append([_f(nxt("coordinate")) for _ in range(3)])
     for _ in range(nf):
-        k = _i(ts.next("face size"))
+        k = _i(nxt("face size"))
         if k < 1:
             raise RefParseError("face with no vertex")
-        ids = [_i(ts.next("face index")) for _ in range(k)]
+        ids = [_i(nxt("face index")) for _ in range(k)]
         if any(not 0 <= v < nv for v in ids):
             raise RefParseError(f"face index out of range: {ids}")
+        colour = []
+        while ts.more() and ts.t[ts.k] is not EOL:
+            colour.append(_f(ts.next("colour component")))
+        if len(colour) not in (0, 1, 3, 4):
+            raise RefParseError(f"face record with {len(colour)} values after its {k} indices (a colour has 1, 3 or 4)")
         m["F"].append(ids)        # an OFF record 'k i1..ik' is a k-gon, whatever k
-    if ts.more():
-        raise RefParseError("trailing data after the announced number of faces")
+    while ts.more():
+        if ts.next() is not EOL:
+            raise RefParseError("trailing data after the announced number of faces")
     return m
 
 
 def write_off(m, variant=0):
-    out = ["OFF", f"{len(m['V'])} {len(m['F'])} 0"]
+    """variant 0: bare; 1: blank line before the faces, two blanks after the face size; 2: every face record carries the
+    optional colour after its indices, as integers (by turns r g b / r g b a / one colormap index); 3: the colour as
+    floats (r g b / r g b a); 4: the real number of edges in the header (readers ignore it), 17-digit numbers, tabs,
+    indented records, CR LF."""
+    ne = 0
+    if variant == 4:
+        ne = len({(min(a, b), max(a, b)) for f in m["F"] for a, b in zip(f, list(f[1:]) + [f[0]]) if a != b})
+    out = ["OFF", f"{len(m['V'])} {len(m['F'])} {ne}"]
     for p in m["V"]:
-        out.append(" ".join(repr(float(c)) for c in p))
+        out.append(" ".join(_spell(c, 1 if variant == 4 else 0) for c in p))
     if variant == 1:
         out.append("")
-    for f in m["F"]:
-        sep = " " if variant == 0 else "  "
-        out.append(f"{len(f)}" + sep + " ".join(str(v) for v in f))
-    return "\n".join(out) + "\n"
+    for k, f in enumerate(m["F"]):
+        sep = "  " if variant in (1, 2, 3) else " "
+        colour = ""
+        if variant == 2:
+            colour = "  " + [f"255 {(40 * k) % 256} 0", f"{(10 * k) % 256} 128 3 255", f"{k % 7}"][k % 3]
+        elif variant == 3:
+            colour = "  " + ["%.3f %.3f %.3f" % (1.0, (k % 5) / 4, 0.0), "%.3f %.3f %.3f %.3f" % (0.5, 0.25, (k % 3) / 2, 1.0)][k % 2]
+        out.append(f"{len(f)}" + sep + " ".join(str(v) for v in f) + colour)
+    return _layout(out, variant == 4)
 
 
 # ================================================================================================ TET
@@ -295,35 +367,49 @@ def parse_tet(text):
 
 
 def write_tet(m, variant=0):
+    """variant 0: bare; 1: 17-digit numbers, tabs, indented records, trailing blanks, CR LF."""
     out = [f"{len(m['V'])} vertices", f"{len(m['C'])} tets"]
     for p in m["V"]:
-        out.append(" ".join(repr(float(c)) for c in p))
+        out.append(" ".join(_spell(c, variant) for c in p))
     for c in m["C"]:
         out.append(f"{len(c)} " + " ".join(str(v) for v in c))
-    return "\n".join(out) + "\n"
+    return _layout(out, variant == 1)
 
 
 # ================================================================================================ XYZ
 def parse_xyz(text):
+    """one record 'x y z' or 'x y z a b c' (normal or colour) per line; the first line may announce the number of points"""
     m = _empty()
-    for raw in text.splitlines():
+    announced = None
+    for k, raw in enumerate(text.splitlines()):
         r = raw.split()
         if not r:
+            continue
+        if k == 0 and len(r) == 1:
+            announced = _i(r[0])
             continue
         if len(r) not in (3, 6):
             raise RefParseError(f"xyz record with {len(r)} fields")
         m["V"].append([_f(x) for x in r[:3]])
+    if announced is not None and announced != len(m["V"]):
+        raise RefParseError(f"{announced} points announced, {len(m['V'])} records")
     return m
 
 
 def write_xyz(m, variant=0):
-    out = []
-    for p in m["V"]:
-        row = [repr(float(c)) for c in p]
+    """variant 0: 'x y z'; 1: 'x y z nx ny nz'; 2: the number of points on a first line of its own; 3: 'x y z r g b'
+    (integer colour), 17-digit numbers, tabs, indented records, CR LF."""
+    out = [str(len(m["V"]))] if variant == 2 else []
+    for k, p in enumerate(m["V"]):
+        row = [_spell(c, 2 if variant == 3 else 0) for c in p]
         if variant == 1:
             row += ["0.0", "0.0", "1.0"]
+        if variant == 3:
+            row += ["255", str((40 * k) % 256), "0"]
         out.append(" ".join(row))
-    return "\n".join(out) + ("\n" if out else "")
+    if not out:
+        return ""
+    return _layout(out, variant == 3)
 
 
 # ================================================================================================ geogram ASCII
@@ -477,21 +563,54 @@ _GEO_SET_OF = {"vertices": "GEO::Mesh::vertices", "edges": "GEO::Mesh::edges", "
                "cell_corners": "GEO::Mesh::cell_corners", "cell_faces": "GEO::Mesh::cell_facets"}
 
 
+_NO_ID = 4294967295
+
+
+def _facet_adjacency(F):
+    """per facet corner k (edge f[k] -> f[k+1]): the one other facet on that edge, else NO_FACET (geogram's convention)"""
+    on = {}
+    for i, f in enumerate(F):
+        for a, b in zip(f, list(f[1:]) + [f[0]]):
+            on.setdefault((min(a, b), max(a, b)), []).append(i)
+    out = []
+    for i, f in enumerate(F):
+        for a, b in zip(f, list(f[1:]) + [f[0]]):
+            others = [j for j in on[(min(a, b), max(a, b))] if j != i]
+            out.append(others[0] if len(others) == 1 else _NO_ID)
+    return out
+
+
+def tet_adjacency(C):
+    """per tetrahedron c and local facet k (the facet opposite to local vertex k): the one other cell holding the same
+    three vertices, else NO_CELL (geogram's convention for GEO::Mesh::cell_facets::adjacent_cell)"""
+    out = []
+    for i, c in enumerate(C):
+        for k in range(4):
+            facet = set(c) - {c[k]}
+            others = [j for j, d in enumerate(C) if j != i and facet <= set(d)]
+            out.append(others[0] if len(others) == 1 else _NO_ID)
+    return out
+
+
 def write_geogram(m, variant=0):
-    """variant 0: bare; variant 1: with the explanatory comments geogram itself writes after every header line."""
+    """variant 0: bare; variant 1: with the explanatory comments geogram itself writes after every header line;
+    variant 2: every [ATTS] chunk first, then the [ATTR] chunks, and facet_ptr written although every facet is a triangle
+    (both optional choices of a writer); variant 3: as 0 plus the adjacency attributes geogram itself stores
+    (facet_corners::corner_adjacent_facet, and cell_facets::adjacent_cell when every cell is a tetrahedron)."""
     cm = (lambda s: " # " + s) if variant == 1 else (lambda s: "")
-    out = ["[HEAD]", '"GEOGRAM"', '"1.0"']
+    head = ["[HEAD]", '"GEOGRAM"', '"1.0"']
+    chunks = []        # ("ATTS" | "ATTR", lines) in the natural interleaved order
 
     def atts(name, n):
-        out.extend(["[ATTS]", f'"{name}"' + cm("this is the name of this attribute set"),
-                    f"{n}" + cm("this is the number of items in this attribute set")])
+        chunks.append(("ATTS", ["[ATTS]", f'"{name}"' + cm("this is the name of this attribute set"),
+                                f"{n}" + cm("this is the number of items in this attribute set")]))
 
     def attr(sname, aname, tname, dim, flat):
-        out.extend(["[ATTR]", f'"{sname}"' + cm("this is the name of the attribute set this attribute belongs to"),
-                    f'"{aname}"' + cm("this is the name of this attribute"),
-                    f'"{tname}"' + cm("this is the type of the elements in this attribute"),
-                    f"{_GEO_BYTES[tname]}" + cm("this is the size of an element (in bytes)"),
-                    f"{dim}" + cm("this is the number of elements per item")])
+        out = ["[ATTR]", f'"{sname}"' + cm("this is the name of the attribute set this attribute belongs to"),
+               f'"{aname}"' + cm("this is the name of this attribute"),
+               f'"{tname}"' + cm("this is the type of the elements in this attribute"),
+               f"{_GEO_BYTES[tname]}" + cm("this is the size of an element (in bytes)"),
+               f"{dim}" + cm("this is the number of elements per item")]
         for v in flat:
             if tname == "bool":
                 out.append("1" if v else "0")
@@ -499,6 +618,7 @@ def write_geogram(m, variant=0):
                 out.append(repr(float(v)))
             else:
                 out.append(str(int(v)))
+        chunks.append(("ATTR", out))
 
     def user(key):
         for k, a in sorted(m.get("attrs", {}).items()):
@@ -515,7 +635,7 @@ def write_geogram(m, variant=0):
         user("GEO::Mesh::edges")
     if m["F"]:
         atts("GEO::Mesh::facets", len(m["F"]))
-        if any(len(f) != 3 for f in m["F"]):
+        if variant == 2 or any(len(f) != 3 for f in m["F"]):
             ptr, k = [], 0
             for f in m["F"]:
                 ptr.append(k); k += len(f)
@@ -524,6 +644,9 @@ def write_geogram(m, variant=0):
         atts("GEO::Mesh::facet_corners", sum(len(f) for f in m["F"]))
         attr("GEO::Mesh::facet_corners", "GEO::Mesh::facet_corners::corner_vertex", "index_t", 1,
              [v for f in m["F"] for v in f])
+        if variant == 3:
+            attr("GEO::Mesh::facet_corners", "GEO::Mesh::facet_corners::corner_adjacent_facet", "index_t", 1,
+                 _facet_adjacency(m["F"]))
         user("GEO::Mesh::facet_corners")
     if m["C"]:
         atts("GEO::Mesh::cells", len(m["C"]))
@@ -537,10 +660,19 @@ def write_geogram(m, variant=0):
         attr("GEO::Mesh::cell_corners", "GEO::Mesh::cell_corners::corner_vertex", "index_t", 1,
              [v for c in m["C"] for v in c])
         user("GEO::Mesh::cell_corners")
-        if any(k.split("|", 1)[0] == "GEO::Mesh::cell_facets" for k in m.get("attrs", {})):
+        adj = variant == 3 and all(len(c) == 4 for c in m["C"])
+        if adj or any(k.split("|", 1)[0] == "GEO::Mesh::cell_facets" for k in m.get("attrs", {})):
             atts("GEO::Mesh::cell_facets", sum(len(c) if len(c) == 4 else 6 for c in m["C"]))
+            if adj:
+                attr("GEO::Mesh::cell_facets", "GEO::Mesh::cell_facets::adjacent_cell", "index_t", 1, tet_adjacency(m["C"]))
             user("GEO::Mesh::cell_facets")
-    return "\n".join(out) + "\n"
+    if variant == 2:
+        chunks.sort(key=lambda c: c[0] != "ATTS")          # stable: the [ATTS] chunks move to the front, order kept
+    return "\n".join(head + [l for _, ls in chunks for l in ls]) + "\n"
+
+
+GEO_BUILTIN_ATTRS = ("GEO::Mesh::facet_corners|GEO::Mesh::facet_corners::corner_adjacent_facet",
+                     "GEO::Mesh::cell_facets|GEO::Mesh::cell_facets::adjacent_cell")
 
 
 # ================================================================================================ STL
@@ -558,25 +690,57 @@ def parse_stl_binary(data: bytes):
     return tris
 
 
-def write_stl_binary(tris):
-    out = [struct.pack("<80sI", b"reference STL writer", len(tris))]
-    for t in tris:
-        flat = [0.0, 0.0, 0.0] + [c for p in t for c in p]
-        out.append(struct.pack("<12fH", *flat, 0))
+def _normal(t):
+    (ax, ay, az), (bx, by, bz), (cx, cy, cz) = t
+    u, v = (bx - ax, by - ay, bz - az), (cx - ax, cy - ay, cz - az)
+    n = (u[1] * v[2] - u[2] * v[1], u[2] * v[0] - u[0] * v[2], u[0] * v[1] - u[1] * v[0])
+    try:
+        l = (n[0] * n[0] + n[1] * n[1] + n[2] * n[2]) ** 0.5
+        n = [f32(c / l) for c in n] if 0.0 < l < float("inf") else [0.0, 0.0, 0.0]
+    except (OverflowError, ZeroDivisionError):
+        n = [0.0, 0.0, 0.0]
+    return [c if c == c else 0.0 for c in n]
+
+
+def write_stl_binary(tris, variant=0):
+    """variant 0: zero normals, zero attribute words, text header; variant 1: the optional parts filled in - computed
+    unit normals, a non-zero 'attribute byte count' word per facet (the colour extension of some exporters) and a
+    header of arbitrary bytes."""
+    if variant == 0:
+        out = [struct.pack("<80sI", b"reference STL writer", len(tris))]
+    else:
+        out = [struct.pack("<80sI", bytes([0x80 + (k * 7) % 120 for k in range(80)]), len(tris))]
+    for k, t in enumerate(tris):
+        flat = ([0.0, 0.0, 0.0] if variant == 0 else _normal(t)) + [c for p in t for c in p]
+        out.append(struct.pack("<12fH", *flat, 0 if variant == 0 else 0x8000 | (k * 1057) % 0x7FFF))
     return b"".join(out)
 
 
-def write_stl_ascii(tris):
-    out = ["solid ref"]
+def write_stl_ascii(tris, variant=0):
+    """variant 0: zero normals, named solid; variant 1: computed normals, 17-digit exponent notation (exact),
+    unnamed solid, tabs for the indentation, CR LF line ends."""
+    if variant == 0:
+        out = ["solid ref"]
+        for t in tris:
+            out.append("  facet normal 0.0 0.0 0.0")
+            out.append("    outer loop")
+            for p in t:
+                out.append("      vertex " + " ".join(repr(float(c)) for c in p))
+            out.append("    endloop")
+            out.append("  endfacet")
+        out.append("endsolid ref")
+        return "\n".join(out) + "\n"
+    e = lambda c: "%.16e" % c
+    out = ["solid"]
     for t in tris:
-        out.append("  facet normal 0.0 0.0 0.0")
-        out.append("    outer loop")
+        out.append("\tfacet normal " + " ".join(e(c) for c in _normal(t)))
+        out.append("\t\touter loop")
         for p in t:
-            out.append("      vertex " + " ".join(repr(float(c)) for c in p))
-        out.append("    endloop")
-        out.append("  endfacet")
-    out.append("endsolid ref")
-    return "\n".join(out) + "\n"
+            out.append("\t\t\tvertex  " + "  ".join(e(c) for c in p))
+        out.append("\t\tendloop")
+        out.append("\tendfacet")
+    out.append("endsolid")
+    return "".join(l + "\r\n" for l in out)
 
 
 def f32(x):
@@ -589,7 +753,20 @@ PARSERS = {"obj": parse_obj, "mesh": parse_medit, "off": parse_off, "tet": parse
            "geogram_ascii": parse_geogram}
 WRITERS = {"obj": write_obj, "mesh": write_medit, "off": write_off, "tet": write_tet, "xyz": write_xyz,
            "geogram_ascii": write_geogram}
-N_VARIANTS = {"obj": 5, "mesh": 2, "off": 2, "tet": 1, "xyz": 2, "geogram_ascii": 2}
+N_VARIANTS = {"obj": 7, "mesh": 4, "off": 5, "tet": 2, "xyz": 4, "geogram_ascii": 4}
+# the optional construct of the format a variant exercises (None: the variant uses only what every file of the format has)
+VARIANT_TAG = {"obj": [None, None, None, None, None, "vertex-weight-colour", "layout"],
+               "mesh": [None, None, "skippable-blocks", "layout"],
+               "off": [None, None, "face-colour-int", "face-colour-float", "layout"],
+               "tet": [None, "layout"],
+               "xyz": [None, None, "count-line", "colour+layout"],
+               "geogram_ascii": [None, None, "atts-first", "adjacency-attributes"]}
+STL_VARIANTS = [("binary", None), ("ascii", None), ("binary-attr", "normals+attribute-words"), ("ascii-decorated", "layout")]
+
+
+def stl_blob(tris, name):
+    return {"binary": lambda: write_stl_binary(tris), "ascii": lambda: write_stl_ascii(tris).encode(),
+            "binary-attr": lambda: write_stl_binary(tris, 1), "ascii-decorated": lambda: write_stl_ascii(tris, 1).encode()}[name]()
 
 
 def selftest():
@@ -610,6 +787,10 @@ def selftest():
                 m["attrs"] = {"GEO::Mesh::vertices|w": {"type": "double", "dim": 2, "values": [[float(i), 0.5] for i in range(8)]},
                               "GEO::Mesh::facets|b": {"type": "bool", "dim": 1, "values": [[True], [False], [True]]}}
             back = par(WRITERS[fmt](m, var))
+            if fmt == "geogram_ascii" and var == 3:
+                assert GEO_BUILTIN_ATTRS[0] in back["attrs"], (fmt, var)
+                for key in GEO_BUILTIN_ATTRS:
+                    back["attrs"].pop(key, None)
             want_F = m["F"]
             if fmt == "mesh" and var == 1:
                 want_F = [f for f in m["F"] if len(f) == 4] + [f for f in m["F"] if len(f) == 3]
@@ -618,4 +799,8 @@ def selftest():
             assert back["attrs"] == m["attrs"], (fmt, var, back["attrs"])
     tris = [[[0.0, 0.5, 1.0], [f32(0.1), 2.0, 3.0], [-1.0, -2.0, f32(1e30)]]]
     assert parse_stl_binary(write_stl_binary(tris)) == tris
+    assert parse_stl_binary(write_stl_binary(tris, 1)) == tris
+    assert all(float(_spell(x, k)) == x for k in (0, 1, 2) for x in (0.1, 1 / 3, 1e-30, -1e30, 5e-324, 1.7976931348623157e308))
+    assert tet_adjacency([[0, 1, 2, 3], [1, 2, 3, 4]]) == [1] + [_NO_ID] * 6 + [0]
+    assert all(len(VARIANT_TAG[f]) == N_VARIANTS[f] for f in N_VARIANTS)
     return True
